@@ -66,6 +66,10 @@ type input struct {
 	DefaultSecret string `json:"default_secret,omitempty"`
 	// CrossNS: --allow-cross-namespace (oracle only): "ns/name" references are allowed.
 	CrossNS bool `json:"cross_ns,omitempty"`
+	// XCrt / XCa: values of the global ConfigMap keys cross-namespace-secrets-crt and
+	// cross-namespace-secrets-ca ("" = key absent = deny)
+	XCrt string `json:"xcrt,omitempty"`
+	XCa  string `json:"xca,omitempty"`
 	// Gateway: the Gateway API (v1) is watched; a GatewayClass of this controller exists.
 	Gateway bool `json:"gateway,omitempty"`
 	// Probe: the input uses names Kubernetes would reject (namespaces with '_'): what the
@@ -234,6 +238,18 @@ func extraObjects(in input) []client.Object {
 			out = append(out, caSecret(ns))
 		}
 	}
+	if in.XCrt != "" || in.XCa != "" {
+		cm := &api.ConfigMap{}
+		cm.Namespace, cm.Name = "ingress-controller", "haproxy-ingress"
+		cm.Data = map[string]string{}
+		if in.XCrt != "" {
+			cm.Data["cross-namespace-secrets-crt"] = in.XCrt
+		}
+		if in.XCa != "" {
+			cm.Data["cross-namespace-secrets-ca"] = in.XCa
+		}
+		out = append(out, cm)
+	}
 	if in.Gateway {
 		out = append(out, &gatewayv1.GatewayClass{ObjectMeta: metav1.ObjectMeta{Name: "gwc"},
 			Spec: gatewayv1.GatewayClassSpec{ControllerName: "haproxy-ingress.github.io/controller"}})
@@ -345,6 +361,9 @@ type genCfg struct {
 	// distinct secrets) and batches that renew all the copies together, to the same new
 	// content or to different ones
 	replicated bool
+	// xns: many cross-namespace references, in the forms ns/name, secret://ns/name and
+	// (own namespace)/name; auth-tls-secret of another namespace
+	xns bool
 }
 
 var (
@@ -438,12 +457,21 @@ func genIngress(rng *rand.Rand, cfg genCfg, ns, name string, stamp int) op {
 		switch k := rng.Intn(12); {
 		case k == 0:
 			b.Secret = ""
-		case k == 1 && cfg.foreign:
+		case (k == 1 || (cfg.xns && k < 5)) && cfg.foreign:
 			other := pickS(rng, namespaces)
 			if other == ns {
 				other = namespaces[(indexOf(namespaces, ns)+1)%len(namespaces)]
 			}
 			b.Secret = other + "/" + pickS(rng, secretNames[:2])
+			if cfg.xns {
+				switch rng.Intn(4) {
+				case 0:
+					b.Secret = "secret://" + b.Secret
+				case 1:
+					// qualified reference into the own namespace: always readable
+					b.Secret = ns + "/" + pickS(rng, secretNames[:2])
+				}
+			}
 		case k < 6:
 			b.Secret = "tls-1"
 		default:
@@ -458,6 +486,9 @@ func genIngress(rng *rand.Rand, cfg genCfg, ns, name string, stamp int) op {
 		}
 		if rng.Intn(4) == 0 {
 			o.Ann["auth-tls-secret"] = "ca-1"
+			if cfg.xns && rng.Intn(2) == 0 {
+				o.Ann["auth-tls-secret"] = namespaces[(indexOf(namespaces, ns)+1)%len(namespaces)] + "/ca-1"
+			}
 		}
 		if rng.Intn(6) == 0 && !hasWildcard(o) && len(o.Rules) > 0 {
 			o.Ann["ssl-passthrough"] = "true"
